@@ -342,6 +342,9 @@ func runCheck(prop, tier string) int {
 	for _, p := range toReplay {
 		// a group is reported once one of its instances reproduces natively
 		cands := append([]Failure{p.g.Failure}, p.g.Alts...)
+		if p.kf != nil && len(cands) > 2 {
+			cands = cands[:2] // a recorded finding is re-confirmed with less effort than a new alarm gets
+		}
 		name := fmt.Sprintf("%s-%s.json", sanitize(p.h.Name), shortHash(failureKey(&p.g.Failure)))
 		path := filepath.Join(replayDir, name)
 		timeout := 8 * time.Second
@@ -368,6 +371,9 @@ func runCheck(prop, tier string) int {
 				tries := 12
 				if len(f.SchedOrder) == 0 {
 					tries = 100
+				}
+				if p.kf != nil && tries > 4 {
+					tries = 4
 				}
 				for i := 0; i < tries && !ok; i++ {
 					r = nb.run(p.h.Pkg, p.h.Entry, path, timeout)
